@@ -26,6 +26,17 @@ class Ctx:
         self.root = root
         self._floors = []
         self._cache = {}
+        self.errors = []
+
+    def guard(self, fn, *args, **kwargs):
+        """Run one rule; an AnalysisError inside it is recorded (exit 2 unless a definite violation was found
+        elsewhere) and does not prevent the other rules from reporting."""
+        try:
+            return fn(self, *args, **kwargs)
+        except AnalysisError as e:
+            self.errors.append(f"{getattr(fn, '__name__', 'rule')}: {e}")
+        except RecursionError:
+            self.errors.append(f"{getattr(fn, '__name__', 'rule')}: recursion limit hit inside the analysis")
 
     def floor(self, rule, minimum):
         """A rule matching fewer sites than confirmed by hand passes vacuously: make that an analysis error."""
@@ -53,10 +64,21 @@ def run_property(pid, root, tier, seed, write=True, quiet=False, only_construct=
     rep = Reporter(pid, tier=tier, seed=seed, root=model.root, quiet=quiet)
     ctx = Ctx(model, rep, tier, seed, model.root)
     mod.run(ctx)
-    ctx.check_floors()
+    try:
+        if not ctx.errors:
+            ctx.check_floors()
+    except AnalysisError as e:
+        ctx.errors.append(str(e))
     if tier == "thorough" and hasattr(mod, "run_thorough"):
-        mod.run_thorough(ctx)
+        ctx.guard(mod.run_thorough)
+    rep.extra["analysis_errors"] = list(ctx.errors)
     code = rep.finish(mod.EXPLANATION, write=write, only_construct=only_construct)
+    if ctx.errors:
+        if code == 0:
+            raise AnalysisError(" || ".join(ctx.errors))
+        if not quiet:
+            for e in ctx.errors:
+                print(f"ANALYSIS-ERROR (other rules still reported above): {e}")
     return code, rep
 
 
